@@ -18,6 +18,7 @@ import (
 	"bytes"
 	"crypto/tls"
 	"crypto/x509"
+	"encoding/binary"
 	"encoding/json"
 	"fmt"
 	"io"
@@ -256,8 +257,19 @@ func (ep *ExportingProcess) SendSet(set entities.Set) (int, error) {
 	if setType == entities.Undefined {
 		return 0, fmt.Errorf("set type is not properly defined")
 	}
-	for _, record := range set.GetRecords() {
-		if setType == entities.Data {
+	if setType == entities.Data {
+		// On the wire, the ID of a data set is the ID of the template which describes its
+		// records. (In JSON format every record is a document of its own.)
+		setID := binary.BigEndian.Uint16(set.GetHeaderBuffer())
+		if !ep.sendJSONRecord {
+			if err := ep.dataSetSanityCheck(setID); err != nil {
+				return 0, fmt.Errorf("error when doing sanity check:%v", err)
+			}
+		}
+		for _, record := range set.GetRecords() {
+			if !ep.sendJSONRecord && record.GetTemplateID() != setID {
+				return 0, fmt.Errorf("error when doing sanity check:process: record for templateID %d in data set with ID %d", record.GetTemplateID(), setID)
+			}
 			err := ep.dataRecSanityCheck(record)
 			if err != nil {
 				return 0, fmt.Errorf("error when doing sanity check:%v", err)
@@ -473,6 +485,16 @@ func (ep *ExportingProcess) sendRefreshedTemplates() error {
 		if _, err := ep.SendSet(templateSet); err != nil {
 			return err
 		}
+	}
+	return nil
+}
+
+func (ep *ExportingProcess) dataSetSanityCheck(setID uint16) error {
+	ep.templateMutex.Lock()
+	defer ep.templateMutex.Unlock()
+
+	if _, exist := ep.templatesMap[setID]; !exist {
+		return fmt.Errorf("process: templateID %d does not exist in exporting process", setID)
 	}
 	return nil
 }
